@@ -40,7 +40,9 @@ NOTES["C02"] = dict(
           "Block variant: products mult/mult_append/mult_T/residual of ParBSR matrices (block sizes 1..3, incl. rectangular blocks) against the global product."),
     note=("Trusted: Lean kernel + standard axioms; exact arithmetic (rounding/reassociation outside the theorem; runs use integer-valued data); "
           "the halo exchange is a parameter of the distributed theorems (its delivery is C03's theorem and, per run, C03's check); "
-          "block (BSR) distributed products are compared with the global product only (no block-level model)."),
+          "block formats: the block kernels (two nested loops over a row-major block) are proved equal to the scalar kernels on the expanded entries "
+          "(Props/C02Block.lean: blockAppend_eq_expand, blockAppendT_eq_expand), so the scalar statements transfer to BCOO/BSR/BSC for every block "
+          "shape; the distributed block products are compared with the global product of the expansion (no per-rank block dump)."),
     technique="Lean 4 proof (induction over entry lists) on an executable model; exact differential runs against the real kernels and ParMatrix operations",
 )
 NOTES["C06"] = dict(
